@@ -31,8 +31,9 @@ P = {
     "C04": dict(cat="other", text=(
         "Proved for all inputs: BioConsert's local search returns exactly score(after) - score(before) (delta lemma and "
         "pair-sum lemma chains), the initial score loop computes the score of the departure vector, and the value stored "
-        "for each departure equals the score of the vector written back. Bounded: the selection / decoding glue, "
-        "PickAPerm's minimum, the PuLP objective, the lazy path, for every configuration and both flag values."),
+        "for each departure equals the score of the vector written back; PickAPerm's reported score is the score its "
+        "scorer gave to every returned ranking (scan fragment). Bounded: the selection / decoding glue, "
+        "the PuLP objective, the lazy path, for every configuration and both flag values."),
         tech=TECH_MIX),
     "C05": dict(cat="exploration", text=(
         "Bounded: optimum value / set of optima against brute-force oracles (all rankings with ties n <= 5, subset DP "
@@ -40,12 +41,14 @@ P = {
         "builders driven through the stand-in (row / sense alignment checked), scaled schemes, sparse datasets. Proved "
         "piece: can_be_all_tied. Optimality itself rests on third-party solvers: no contract can decide it."),
         tech=TECH_T2 + "; one function under deductive contract"),
-    "C06": dict(cat="exploration", text=(
-        "Bounded: partition of the universe, existence of an optimum respecting it (all optima n <= 5), consensus respects "
-        "the partition and reports it, necessarily-optimal flag truthful for every algorithm, delegation counted by "
-        "wrapping the auxiliary algorithm; cplex absent / stand-in. Proved piece: can_be_all_tied returns true exactly when "
-        "tying is a cheapest placement for every pair. The partition theorem is cited and validated against the oracle."),
-        tech=TECH_T2 + "; one function under deductive contract"),
+    "C06": dict(cat="other", text=(
+        "Proved (fragment: the initialisations + the component loop of ParCons.compute_consensus_rankings, sub-solvers and "
+        "sets opaque, ghost counters on the calls): the mark is set exactly when the auxiliary algorithm was never called, "
+        "one reported group per component; can_be_all_tied returns true exactly when tying is a cheapest placement for every "
+        "pair. Bounded: partition of the universe, existence of an optimum respecting it (all optima n <= 5), consensus "
+        "respects the partition and reports it, flag truthful for every algorithm; cplex absent / stand-in. The partition "
+        "theorem is cited and validated against the oracle."),
+        tech=TECH_MIX),
     "C07": dict(cat="other", text=(
         "Proved (fragment contract on the merge loop of parfront_partition, any list of sets, any arc set): on exit every "
         "two consecutive groups are linked by robust arcs only. Bounded: partition of the universe, merges consecutive "
@@ -64,26 +67,36 @@ P = {
         "difference, hence each improved departure scores no more than its start. Bounded: which departures are used "
         "(ids of the input dataset), selection of the best, comparison with every completed input / the all-tied ranking "
         "/ each starter's own consensus under oracle scores."), tech=TECH_MIX),
-    "C10": dict(cat="exploration", text=(
-        "Bounded: membership, minimality, completeness of the returned set, at-most-one, refusal exactly for schemes not "
-        "proportional to the unifying scheme on both vectors; exhaustive datasets n <= 3 m <= 2 + samples, 14-27 schemes."),
-        tech=TECH_T2),
+    "C10": dict(cat="other", text=(
+        "Proved for all lists of input rankings (fragment: the four initialisations + the scan loop of "
+        "compute_consensus_rankings, get_kemeny_score an uninterpreted finite-valued function of the ranking): the "
+        "reported score is a lower bound of every scanned score, every returned ranking is a scanned ranking with exactly "
+        "that score, at most one is returned when asked, every minimal one when all are asked. Bounded: unification, "
+        "refusal exactly for schemes not proportional to the unifying scheme, end-to-end membership / minimality / "
+        "completeness with the real scorer; exhaustive datasets n <= 3 m <= 2 + samples, 14-27 schemes."),
+        tech=TECH_MIX),
     "C11": dict(cat="other", text=(
         "Proved for all position vectors and schemes: _where_should_it_be returns the cheapest placement with ties "
         "preferred, then before (the five vectorised counts are tied pointwise to counting specs; six induction lemmas give "
-        "the status counts). Bounded: every pivot sequence for n <= 4 (<= 5 thorough): coherent preferences give exactly the "
+        "the status counts); the partition step of the recursion files each element under that decision (fragment). "
+        "Bounded: every pivot sequence for n <= 4 (<= 5 thorough): coherent preferences give exactly the "
         "induced ranking, per-step placement, identical-rankings corollary."), tech=TECH_MIX),
     "C12": dict(cat="exploration", text=(
         "Bounded: exact Fraction oracle for both variants, accepted scheme families and multiples, refusal otherwise, "
-        "invariance under permutation of rankings and renaming."), tech=TECH_T2),
+        "invariance under permutation of rankings and renaming. Proved pieces: the predicate answers with exactly the four "
+        "documented families; the guard refuses exactly on (incomplete, predicate false)."),
+        tech=TECH_T2 + "; two small functions under deductive contract"),
     "C13": dict(cat="other", text=(
         "Proved for all mirror-consistent tables: per-element scores and victory / equality / defeat counts equal the "
         "definitional sums, counts add up to n-1, scores add up to n(n-1)/2. Bounded: ordering by decreasing score with "
         "exact ties, feature dictionaries keyed by the right elements."), tech=TECH_MIX),
-    "C14": dict(cat="exploration", text=(
-        "Bounded: the predicate answers a bool for every configuration (nested ones included) and scheme; true => "
-        "well-formed consensus on incomplete data; complete data never refused; refusal <=> declared not relevant."),
-        tech=TECH_T2),
+    "C14": dict(cat="other", text=(
+        "Proved (schemes and sub-algorithms opaque, equivalence an uninterpreted predicate): the guards of Borda and PickAPerm "
+        "raise their documented exception exactly when the dataset is incomplete and the very answer of their predicate is "
+        "False; BioConsert's predicate is the conjunction of its starters' answers. Bounded: the predicate answers a bool "
+        "for every configuration (nested ones included) and scheme; true => well-formed consensus on incomplete data; "
+        "complete data never refused; refusal <=> declared not relevant, end to end."),
+        tech=TECH_MIX),
     "C15": dict(cat="other", text=(
         "Deductive part: syntactic frame obligations over all 120+ functions with dataset / scheme / ranking inputs: no "
         "statement mutates an input-reachable object (may-alias taint analysis; a finding is 'undecided', never a "
